@@ -49,18 +49,13 @@ _COV = re.compile(r"^<(\w+) line (\d+), col (\d+) to line \d+, col \d+ of module
 
 
 def _unescape(s):
-    # TLC prints a string value with \" and \\ escapes
-    out = []
-    i = 0
-    while i < len(s):
-        ch = s[i]
-        if ch == "\\" and i + 1 < len(s):
-            out.append(s[i + 1])
-            i += 2
-        else:
-            out.append(ch)
-            i += 1
-    return "".join(out)
+    # TLC prints a string value with \" and \\ escapes (JSON-compatible)
+    if "\\" not in s:
+        return s
+    try:
+        return json.loads('"' + s + '"')
+    except ValueError:
+        return s.replace('\\"', '"').replace("\\\\", "\\")
 
 
 def run(ctx, module, cfg, workers=8, timeout=600, simulate=None, depth=None, seed=None,
@@ -80,7 +75,7 @@ def run(ctx, module, cfg, workers=8, timeout=600, simulate=None, depth=None, see
         with open(os.path.join(d, fn), "w") as f:
             f.write(txt)
     meta = os.path.join(ctx.tmp, "meta-" + name + "-%d" % int(time.time() * 1000))
-    java = ["java", "-XX:+UseParallelGC", "-Xss64m"]
+    java = ["java", "-XX:+UseParallelGC", "-XX:ParallelGCThreads=%d" % max(2, min(4, int(workers))), "-Xss64m"]
     if heap:
         java.append("-Xmx" + heap)
     if dfs:
@@ -137,6 +132,9 @@ def run(ctx, module, cfg, workers=8, timeout=600, simulate=None, depth=None, see
         m = _VIOL.search(ln)
         if m and res.violated is None:
             res.violated = m.group(1) or "property"
+        m = re.search(r"Error: Postcondition (\S+)", ln)
+        if m and res.violated is None:
+            res.violated = m.group(1)
         if "Error: Deadlock reached" in ln and res.violated is None:
             res.violated = "Deadlock"
         m = _COV.match(ln)
